@@ -1,8 +1,16 @@
 #!/usr/bin/env python3
 """Merges the per-worker outputs of tools/seeded_matrix.py (MATRIX_WORKER=n) into
 /verif/seeded/MATRIX.tsv and /verif/seeded/expected.json."""
-import json, glob
+import json, glob, os
 byid, expected, heads = {}, {}, []
+# rows of changes that were not re-run are kept
+if os.path.exists("/verif/seeded/MATRIX.tsv"):
+    for l in open("/verif/seeded/MATRIX.tsv").read().splitlines()[1:]:
+        f = l.split("\t")
+        if len(f) >= 4:
+            byid[f[0]] = f[:4]
+if os.path.exists("/verif/seeded/expected.json"):
+    expected = json.load(open("/verif/seeded/expected.json"))
 for f in sorted(glob.glob("/var/tmp/scratch/matrix-part*.json")):   # later parts (re-runs) override earlier ones
     d = json.load(open(f))
     for r in d["rows"]:
